@@ -103,6 +103,7 @@ pub proof fn canary__axioms_consistent()
 {
     broadcast use crate::prelude::group_felt;
     broadcast use crate::prelude::axiom_finv;
+    broadcast use crate::prelude::axiom_field_integral;
     broadcast use crate::prelude::axiom_be32;
     broadcast use crate::prelude::axiom_nzfelt_range;
     broadcast use crate::hashes::group_digest_len;
